@@ -63,6 +63,7 @@ struct S {
 static std::vector<SetterDesc> g_setters;   // those of the class under exploration
 static RawOps* g_raw = 0;
 static PDU* (*g_make)() = 0;
+static bool g_preload = false;      // root object starts with four raw options (types t0,t1,t2,t0)
 static PDU* (*g_parse)(const uint8_t*, uint32_t) = 0;
 static std::string g_cls;
 static int g_kmax[4] = {1000, 2, 1, 1};
@@ -211,9 +212,28 @@ static std::string step(S& s, const Op& op) {
     } else {
         size_t n0 = g_raw->count(*s.o);
         if ((size_t)op.a >= n0) return "";
+        std::string list_before;
+        for (auto& kv : before) if (list_key(kv.first) && kv.second.size() > 2 && kv.second.compare(0, 5, "[opt(") == 0) list_before = kv.second;
         bool ok = g_raw->remove_at(*s.o, op.a);
         if (!ok || g_raw->count(*s.o) != n0 - 1) return "api:remove-option:" + g_cls + "|remove_option returned " + std::to_string(ok) + " count " + std::to_string(n0) + " -> " + std::to_string(g_raw->count(*s.o));
         s.expect.clear(); s.added.clear();     // the wire round trip is the oracle after removals (first-match bookkeeping restarts)
+        // the surviving options keep their order and bytes: expected list = old list minus the first option of the removed option's type
+        if (!list_before.empty()) {
+            std::vector<std::string> el; int depth = 0; std::string cur;
+            for (size_t i = 1; i + 1 < list_before.size(); ++i) { char ch = list_before[i]; if (ch == '(' || ch == '{' || ch == '[') ++depth; if (ch == ')' || ch == '}' || ch == ']') --depth;
+                if (ch == ',' && depth == 0) { el.push_back(cur); cur.clear(); } else cur += ch; }
+            if (!cur.empty()) el.push_back(cur);
+            if ((size_t)op.a < el.size()) {
+                std::string type = el[op.a].substr(0, el[op.a].find(",len="));
+                for (size_t j = 0; j < el.size(); ++j) if (el[j].substr(0, el[j].find(",len=")) == type) { el.erase(el.begin() + j); break; }
+                std::string want = "[";
+                for (size_t j = 0; j < el.size(); ++j) want += (j ? "," : "") + el[j];
+                want += "]";
+                auto after = snapshot(*s.o);
+                for (auto& kv : after) if (list_key(kv.first) && before.count(kv.first) && before[kv.first] == list_before && kv.second != want)
+                    return "api:remove-option-order:" + g_cls + "|options after removal " + kv.second.substr(0, 200) + " expected " + want.substr(0, 200);
+            }
+        }
     }
     // every remembered expectation still holds
     auto now = snapshot(*s.o);
@@ -225,13 +245,13 @@ template <class Q> PDU* make_q() { return make_default((Q*)0); }
 template <class Q> PDU* parse_q(const uint8_t* p, uint32_t n) { return new Q(p, n); }
 inline PDU* parse_eapol(const uint8_t* p, uint32_t n) { return EAPOL::from_bytes(p, n); }
 
-struct ClassCfg { std::string name; PDU* (*make)(); PDU* (*parse)(const uint8_t*, uint32_t); RawOps raw; bool has_raw; std::vector<std::string> applicable; std::vector<std::string> exclude_setters; };
+struct ClassCfg { std::string name; PDU* (*make)(); PDU* (*parse)(const uint8_t*, uint32_t); RawOps raw; bool has_raw; std::vector<std::string> applicable; std::vector<std::string> exclude_setters; bool preload; };
 
 static std::vector<ClassCfg> classes() {
     std::vector<ClassCfg> v;
     RawOps none = RawOps();
-#define CLS(Q) v.push_back(ClassCfg{#Q, &make_q<Q>, &parse_q<Q>, none, false, {}, {}});
-#define CLSR(Q, Opt, CtorT, Type, ...) v.push_back(ClassCfg{#Q, &make_q<Q>, &parse_q<Q>, raw_ops<Q, Opt, CtorT, Type>(std::vector<int>(__VA_ARGS__)), true, {}, {}});
+#define CLS(Q) v.push_back(ClassCfg{#Q, &make_q<Q>, &parse_q<Q>, none, false, {}, {}, false});
+#define CLSR(Q, Opt, CtorT, Type, ...) v.push_back(ClassCfg{#Q, &make_q<Q>, &parse_q<Q>, raw_ops<Q, Opt, CtorT, Type>(std::vector<int>(__VA_ARGS__)), true, {}, {}, false});
     CLSR(TCP, TCP::option, TCP::OptionTypes, TCP::OptionTypes, {2, 34, 254})
     CLSR(IP, IP::option, IP::option_identifier, IP::option_identifier, {0x88, 0x07, 0x94})
     v.push_back(ClassCfg{"ICMPv6", []() -> PDU* { return new ICMPv6(ICMPv6::NEIGHBOUR_SOLICIT); }, &parse_q<ICMPv6>, raw_ops<ICMPv6, ICMPv6::option, uint8_t, ICMPv6::OptionTypes>({1, 5, 200}), true,
@@ -263,11 +283,13 @@ static std::vector<ClassCfg> classes() {
     CLS(UDP) CLS(ICMP) CLS(DNS) CLS(BootP) CLS(RTP) CLS(VXLAN) CLS(STP) CLS(RSNEAPOL) CLS(RC4EAPOL)
     CLS(Dot11Data) CLS(Dot11QoSData) CLS(Dot11Authentication) CLS(Dot11Deauthentication) CLS(Dot11Disassoc) CLS(Dot11ProbeRequest) CLS(Dot11AssocResponse)
     CLS(Dot11ReAssocRequest) CLS(Dot11ReAssocResponse) CLS(Dot11RTS) CLS(Dot11PSPoll) CLS(Dot11CFEnd) CLS(Dot11EndCFAck) CLS(Dot11Ack) CLS(Dot11BlockAck) CLS(Dot11BlockAckRequest)
+    // the option-carrying classes again, starting from an object that already holds four raw options
+    { size_t n = v.size(); for (size_t i = 0; i < n; ++i) if (v[i].has_raw) { ClassCfg c = v[i]; c.preload = true; v.push_back(c); } }
     return v;
 }
 
 static void run_class(const ClassCfg& c, int variant, int maxdepth, const std::string* rp = 0, std::string* rerr = 0) {
-    g_cls = c.name; g_make = c.make; g_parse = c.parse;
+    g_cls = c.name; g_make = c.make; g_parse = c.parse; g_preload = c.preload;
     static RawOps raw; raw = c.raw; g_raw = c.has_raw ? &raw : 0;
     std::unique_ptr<PDU> probe(c.make());
     if (!probe) return;
@@ -286,7 +308,7 @@ static void run_class(const ClassCfg& c, int variant, int maxdepth, const std::s
     if (g_raw) { for (int t = 0; t < 3; ++t) for (int len : g_rawlens) ex.alphabet.push_back(Op{1, t, len}); ex.alphabet.push_back(Op{2, 0, 0}); ex.alphabet.push_back(Op{2, 1, 0}); }
     ex.context = "class=" + c.name + " variant=" + std::to_string(variant) + " depth=" + std::to_string(maxdepth);
     ex.op_str = [](const Op& o) { return o.kind == 0 ? g_setters[o.a].name + "#" + std::to_string(o.b) : o.kind == 1 ? "add" + std::to_string(o.a) + "." + std::to_string(o.b) : "rem" + std::to_string(o.a); };
-    ex.init = []() { S s; s.o.reset(g_make()); return s; };
+    ex.init = []() { S s; s.o.reset(g_make()); if (g_preload && g_raw) { g_raw->add(*s.o, 0, g_rawlens[1]); g_raw->add(*s.o, 1, g_rawlens[2]); g_raw->add(*s.o, 2, g_rawlens[0]); g_raw->add(*s.o, 0, g_rawlens[2]); } return s; };
     ex.canon = [](const S& s) { std::string o; for (auto& kv : snapshot(*s.o)) o += kv.first + "=" + kv.second + ";"; for (auto& kv : s.expect) o += kv.first + ">" + kv.second; return o; };
     // deeper levels use fewer samples per setter (deviation bound on the argument domain)
     ex.enabled = [](const S& s, const Op& o) { if (o.kind != 0) return true; int d = s.depth < 3 ? s.depth : 3; return o.b < g_kmax[d]; };
